@@ -70,6 +70,9 @@ pub struct Doc {
     pub rm_tag: String,
     pub nodes: Vec<Node>,
     pub final_newline: bool,
+    /// (number of filler code lines, true = before the nodes / false = after them): large inputs
+    #[serde(default)]
+    pub pad: Option<(u32, bool)>,
 }
 
 pub const DEFAULT_DS: &str = "<!-- <";
@@ -240,7 +243,18 @@ fn render_nodes(doc: &Doc, nodes: &[Node], out: &mut Vec<String>) {
 impl Doc {
     pub fn render(&self) -> String {
         let mut lines = Vec::new();
+        let filler = |lines: &mut Vec<String>, n: u32| {
+            for i in 0..n {
+                lines.push(format!("    filler_line_{:06}(); // 埋め草", i));
+            }
+        };
+        if let Some((n, true)) = self.pad {
+            filler(&mut lines, n);
+        }
         render_nodes(self, &self.nodes, &mut lines);
+        if let Some((n, false)) = self.pad {
+            filler(&mut lines, n);
+        }
         let mut s = lines.join("\n");
         if self.final_newline && !lines.is_empty() {
             s.push('\n');
@@ -447,6 +461,19 @@ impl Doc {
             d.final_newline = true;
             out.push(d);
         }
+        if let Some((n, at_start)) = self.pad {
+            let mut d = self.clone();
+            d.pad = None;
+            out.push(d);
+            if n > 1 {
+                let mut d = self.clone();
+                d.pad = Some((n / 2, at_start));
+                out.push(d);
+                let mut d = self.clone();
+                d.pad = Some((n - 1, at_start));
+                out.push(d);
+            }
+        }
         out
     }
 
@@ -489,6 +516,8 @@ pub struct GenParams<'a> {
     /// probability (in 1/8ths) that an element is time-limited rather than marker
     pub tl_eighths: u64,
     pub default_config_eighths: u64,
+    /// about 1 % of the documents get hundreds of kilobytes of filler lines
+    pub large_inputs: bool,
 }
 
 pub struct DocGen<'a, 'b> {
@@ -683,5 +712,6 @@ pub fn generate(rng: &mut Rng, p: &GenParams) -> Doc {
         nodes.insert(at, Node::Elem(e));
     }
     let final_newline = g.rng.chance(5, 6);
-    Doc { ds, de, tl_tag: tl, rm_tag: rm, nodes, final_newline }
+    let pad = if p.large_inputs && g.rng.chance(1, 100) { Some((*g.rng.pick(&[300u32, 2_000, 6_000]), g.rng.chance(1, 2))) } else { None };
+    Doc { ds, de, tl_tag: tl, rm_tag: rm, nodes, final_newline, pad }
 }
